@@ -930,9 +930,17 @@ impl Heap {
         let align_offset = pstr_sentinel_length(s_len);
         let copy_size = s_len + align_offset;
 
+        // NOTE: a one-byte padding is followed by a further zero cell,
+        // which must be accounted for in the free space as well.
+        let write_size = if align_offset == 1 {
+            copy_size + heap_index!(1)
+        } else {
+            copy_size
+        };
+
         loop {
             unsafe {
-                if self.free_space() >= copy_size {
+                if self.free_space() >= write_size {
                     let slice =
                         std::slice::from_raw_parts_mut(self.inner.ptr, self.inner.byte_len + s_len);
 
